@@ -1,0 +1,132 @@
+//go:build verif
+
+package cloudprovider
+
+// Step exports for the C12 correspondence harness (/verif): the harness drives one
+// CachedCloudProvider label by label without starting Run, and compares what the code did with
+// the Coq model after every label.  Add-only; compiled only with -tags verif.
+
+import (
+	"context"
+	"sort"
+	"time"
+
+	"github.com/sirupsen/logrus"
+
+	"github.com/atlassian/gostatsd"
+	"github.com/atlassian/gostatsd/pkg/stats"
+)
+
+// VerifHandleInstanceInfo is Run's arm `case info := <-ownInfoSource`.
+func (ccp *CachedCloudProvider) VerifHandleInstanceInfo(info gostatsd.InstanceInfo) {
+	ccp.handleInstanceInfo(info)
+}
+
+// VerifDoRefresh is Run's arm `case t := <-refreshTicker.C`.
+func (ccp *CachedCloudProvider) VerifDoRefresh(t time.Time) {
+	ccp.doRefresh(t)
+}
+
+// VerifEmit is Run's arm `case statser := <-ccp.emitChan`.
+func (ccp *CachedCloudProvider) VerifEmit(statser stats.Statser) {
+	ccp.emit(statser)
+}
+
+// VerifDoLookup runs the dispatcher's doLookup on ips against the provider and returns every
+// InstanceInfo it sent, in order.  max bounds the number collected (a runaway sender is cancelled).
+func VerifDoLookup(logger logrus.FieldLogger, provider gostatsd.CloudProvider, ips []gostatsd.Source, max int) []gostatsd.InstanceInfo {
+	ctx, cancel := context.WithCancel(context.Background())
+	defer cancel()
+	sink := make(chan gostatsd.InstanceInfo)
+	ld := cloudProviderLookupDispatcher{
+		logger:        logger,
+		cloudProvider: provider,
+		infoSink:      sink,
+	}
+	done := make(chan struct{})
+	go func() {
+		defer close(done)
+		ld.doLookup(ctx, ips)
+	}()
+	var out []gostatsd.InstanceInfo
+	for {
+		select {
+		case info := <-sink:
+			out = append(out, info)
+			if len(out) >= max {
+				cancel()
+				<-done
+				return out
+			}
+		case <-done:
+			return out
+		}
+	}
+}
+
+// VerifPopLookup is the first refill block at the end of Run's loop body, for a free register.
+func (ccp *CachedCloudProvider) VerifPopLookup() (gostatsd.Source, bool) {
+	if len(ccp.toLookupIPs) == 0 {
+		return gostatsd.UnknownSource, false
+	}
+	last := len(ccp.toLookupIPs) - 1
+	ip := ccp.toLookupIPs[last]
+	ccp.toLookupIPs[last] = gostatsd.UnknownSource
+	ccp.toLookupIPs = ccp.toLookupIPs[:last]
+	return ip, true
+}
+
+// VerifPopReturn is the second refill block at the end of Run's loop body, for a free register.
+func (ccp *CachedCloudProvider) VerifPopReturn() (gostatsd.InstanceInfo, bool) {
+	if len(ccp.toReturnInfo) == 0 {
+		return gostatsd.InstanceInfo{}, false
+	}
+	last := len(ccp.toReturnInfo) - 1
+	info := ccp.toReturnInfo[last]
+	ccp.toReturnInfo[last] = gostatsd.InstanceInfo{}
+	ccp.toReturnInfo = ccp.toReturnInfo[:last]
+	return info, true
+}
+
+// VerifShiftStamps simulates the passage of d: the code reads time.Now() directly, so every
+// holder's expiry and last-access stamp is moved d into the past instead.
+func (ccp *CachedCloudProvider) VerifShiftStamps(d time.Duration) {
+	ccp.rw.Lock()
+	defer ccp.rw.Unlock()
+	for _, h := range ccp.cache {
+		h.expires = h.expires.Add(-d)
+		h.lastAccessNano -= d.Nanoseconds()
+	}
+}
+
+// VerifCacheEntry is one cache entry of a snapshot.
+type VerifCacheEntry struct {
+	IP       gostatsd.Source
+	Instance *gostatsd.Instance
+}
+
+// VerifSnapshot is the state the C12 property talks about.
+type VerifSnapshot struct {
+	Cache                                                []VerifCacheEntry // sorted by IP
+	Positive, Negative, RefreshPositive, RefreshNegative uint64
+	ToLookupIPs                                          []gostatsd.Source
+	ToReturnInfo                                         []gostatsd.InstanceInfo
+}
+
+func (ccp *CachedCloudProvider) VerifSnapshot() VerifSnapshot {
+	s := VerifSnapshot{
+		Positive:        ccp.statsCachePositive,
+		Negative:        ccp.statsCacheNegative,
+		RefreshPositive: ccp.statsCacheRefreshPositive,
+		RefreshNegative: ccp.statsCacheRefreshNegative,
+		ToLookupIPs:     append([]gostatsd.Source(nil), ccp.toLookupIPs...),
+		ToReturnInfo:    append([]gostatsd.InstanceInfo(nil), ccp.toReturnInfo...),
+	}
+	ccp.rw.RLock()
+	for ip, h := range ccp.cache {
+		s.Cache = append(s.Cache, VerifCacheEntry{IP: ip, Instance: h.instance})
+	}
+	ccp.rw.RUnlock()
+	sort.Slice(s.Cache, func(i, j int) bool { return s.Cache[i].IP < s.Cache[j].IP })
+	return s
+}
